@@ -23,7 +23,17 @@ def main():
         torch.manual_seed(0)
         agg = C(**kw)
         out = agg(J)
-        json.dump({"out": out.detach().tolist(), "module_file": sys.modules[mod].__file__}, sys.stdout)
+        res = {"out": out.detach().tolist(), "module_file": sys.modules[mod].__file__, "perturbed": []}
+        # the same call on two inputs perturbed by a relative 1e-10: an output that jumps is ill-conditioned at this input
+        g = torch.Generator().manual_seed(12345)
+        for _ in range(2):
+            Jp = J * (1.0 + 1e-10 * torch.randn(J.shape, generator=g, dtype=torch.float64))
+            try:
+                torch.manual_seed(0)
+                res["perturbed"].append(C(**kw)(Jp).detach().tolist())
+            except Exception as e:  # noqa: BLE001
+                res["perturbed"].append({"raise": type(e).__name__})
+        json.dump(res, sys.stdout)
     except Exception as e:  # noqa: BLE001
         json.dump({"raise": type(e).__name__, "msg": str(e)[:300]}, sys.stdout)
 
